@@ -252,18 +252,18 @@ def _check_norms(A4):
     for k, v in got.items():
         if not abs(float(v) - d["fro"]) <= tol:
             return {"what": f"{k} = {v} differs from the Frobenius definition {d['fro']}"}
-    if abs(u.matrix_norm(Q, 1) - d["one"]) > tol or abs(u.induced_matrix_norm_1(Q) - d["one"]) > tol:
+    if not (abs(u.matrix_norm(Q, 1) - d["one"]) <= tol and abs(u.induced_matrix_norm_1(Q) - d["one"]) <= tol):
         return {"what": "1-norm differs from max column sum", "got": u.matrix_norm(Q, 1), "want": d["one"]}
-    if abs(u.matrix_norm(Q, np.inf) - d["inf"]) > tol or abs(u.matrix_norm(Q, "inf") - d["inf"]) > tol:
+    if not (abs(u.matrix_norm(Q, np.inf) - d["inf"]) <= tol and abs(u.matrix_norm(Q, "inf") - d["inf"]) <= tol):
         return {"what": "inf-norm differs from max row sum", "got": u.matrix_norm(Q, np.inf), "want": d["inf"]}
     n2 = u.matrix_norm(Q, 2)
-    if abs(n2 - s2) > 1e-9 * max(1.0, s2):
+    if not (abs(n2 - s2) <= 1e-9 * max(1.0, s2)):
         return {"what": "2-norm differs from the largest singular value", "got": n2, "want": s2}
     ab = r.tensor.tensor_entrywise_abs(Q.reshape(A4.shape[0], A4.shape[1], 1))[..., 0]
     if not np.allclose(ab, np.sqrt(np.sum(A4 ** 2, axis=-1)), atol=tol):
         return {"what": "tensor_entrywise_abs"}
     q = Q[0, 0]
-    if abs(u.quat_abs_scalar(q) - math.sqrt(float(np.sum(A4[0, 0] ** 2)))) > tol:
+    if not (abs(u.quat_abs_scalar(q) - math.sqrt(float(np.sum(A4[0, 0] ** 2)))) <= tol):
         return {"what": "quat_abs_scalar"}
     return None
 
@@ -276,18 +276,18 @@ def _check_laws(A4, B4, C4, t):
     eps = 1e-10
     for o in (None, 1, 2, np.inf):
         nA, nB = u.matrix_norm(Q(A4), o), u.matrix_norm(Q(B4), o)
-        if abs(u.matrix_norm(Q(t * A4), o) - abs(t) * nA) > eps * max(1, abs(t) * nA):
+        if not (abs(u.matrix_norm(Q(t * A4), o) - abs(t) * nA) <= eps * max(1, abs(t) * nA)):
             return {"what": f"homogeneity ord={o}"}
-        if u.matrix_norm(Q(A4 + B4), o) > (nA + nB) * (1 + eps) + 1e-13:
+        if not (u.matrix_norm(Q(A4 + B4), o) <= (nA + nB) * (1 + eps) + 1e-13):
             return {"what": f"triangle inequality ord={o}"}
         nC = u.matrix_norm(Q(C4), o)
-        if u.matrix_norm(Q(rt.qmm(A4, C4)), o) > nA * nC * (1 + eps) + 1e-13:
+        if not (u.matrix_norm(Q(rt.qmm(A4, C4)), o) <= nA * nC * (1 + eps) + 1e-13):
             return {"what": f"sub-multiplicativity ord={o}"}
     n2, nf, n1, ni = (u.matrix_norm(Q(A4), o) for o in (2, None, 1, np.inf))
     rk = int(np.sum(rt.singular_values(A4) > 1e-10 * max(1.0, n2)))
-    if n2 > nf * (1 + eps) or nf > math.sqrt(max(rk, 1)) * n2 * (1 + 1e-8) + 1e-13:
+    if not (n2 <= nf * (1 + eps) and nf <= math.sqrt(max(rk, 1)) * n2 * (1 + 1e-8) + 1e-13):
         return {"what": "||A||_2 <= ||A||_F <= sqrt(rank) ||A||_2", "n2": n2, "nf": nf, "rank": rk}
-    if n2 * n2 > n1 * ni * (1 + eps) + 1e-13:
+    if not (n2 * n2 <= n1 * ni * (1 + eps) + 1e-13):
         return {"what": "||A||_2^2 <= ||A||_1 ||A||_inf"}
     return None
 
